@@ -4,7 +4,7 @@ ENGINES = [
     {
         "name": "symx",
         "path": "/verif/symx",
-        "serves_properties": ["C04", "C07", "C13", "C16", "C17"],
+        "serves_properties": ["C04", "C07", "C13", "C16", "C17", "C18"],
         "kind_free_text": "own symbolic executor: geoh5py's real functions run under CPython with the module-global "
         "`np` (and, for file paths, `h5py`) rebound to z3-backed models; re-execution DFS forks on symbolic "
         "branches; obligations are z3 validity queries; counterexamples are replayed on real numpy/h5py",
@@ -79,6 +79,17 @@ CLAIMED = {
         "(with orphan handling and inverse), None only when allowed, copied vertices/cells/data exactly the "
         "selection re-indexed onto the same coordinates, and for grids the smallest covering sub-grid with blanking.",
     ),
+    "C18": _symx(
+        "C18",
+        "bounded symbolic execution of the real Drillhole.surveys/locations/desurvey/compute_deviation code with "
+        "symbolic collar, survey rows and query depths (trigonometry uninterpreted); z3 (nonlinear real arithmetic) "
+        "decides the path formula; counterexamples replayed on real numpy",
+        "bounded symbolic model checking of the desurvey kernel: survey tables of 1-4 rows (non-decreasing depths, any "
+        "azimuth/dip as uninterpreted directions), symbolic collar and query depths; z3 proves position(0) == collar, "
+        "position(q) == P_i + (q-d_i) * mean(dir_i, dir_i+1) within each leg with P_i+1 the end of leg i (continuity), "
+        "continuation beyond the last station, and displacement == depth difference where station directions coincide. "
+        "Partial: vertices/cells created for added depth/interval data are outside the claim.",
+    ),
     "C07": {
         "engine": "symx",
         "technique": "bounded symbolic execution of the real remove_vertices/remove_cells/values-setter code on a "
@@ -120,5 +131,4 @@ NOT_APPLICABLE = {
     "C08": _NOT_BUILT,
     "C14": _NOT_BUILT,
     "C15": _NOT_BUILT,
-    "C18": _NOT_BUILT,
 }
